@@ -122,18 +122,16 @@ def attribute(G, t, c, res: set, den: set, den_match: set):
     if extra and all(not os.path.lexists(os.path.join(t.root, x)) if not x.startswith('/') else not os.path.lexists(x)
                      for x in extra):
         # D17: results below something that is not a directory
-        plist = [c.pats] if isinstance(c.pats, str) else list(c.pats)
-        maxsegs = max((len([sg for sg in q.split('/') if sg]) for q in plist), default=0)
-
         def under_nondir(x):
-            # D17's shape: the pattern has a further segment (`f/.`, `f/**`) AFTER the one that named the non-directory; a bare
-            # `f/` returned for a regular file `f` is not D17 (seeded change C05c)
+            return K.d17_shape(G, t, c.pats, c.flags, x) and _under(x)
+
+        def _under(x):
             comps = [k for k in x.rstrip('/').split('/')]
-            for j in range(1, len(comps) + 1):
-                pre = '/'.join(comps[:j])
+            for jj in range(1, len(comps) + 1):
+                pre = '/'.join(comps[:jj])
                 full = pre if x.startswith('/') else os.path.join(t.root, pre)
                 if pre and os.path.lexists(full) and not os.path.isdir(full):
-                    return maxsegs > j or x.startswith('/') or any(fl_b for fl_b in (c.flags & G.MATCHBASE, c.flags & G.BRACE, c.flags & G.SPLIT))
+                    return True
             return False
         if all(under_nondir(x) for x in extra):
             ids.append('KF-D17')
